@@ -7,7 +7,7 @@ def plan(tier):
         "families": [{"fam": "fm", "trace": "SuffixIndexTraceFm", "nfiles": 2, "timeout": 3000}],
         "required_obligations": ["exhaustive_small", "complete_by_construction", "partial_by_construction",
                                  "absent_by_construction", "longer_than_text", "whole_text_pattern", "multi_sentinel",
-                                 "sampled_sa", "sentinel_not_dollar_sampled_sa", "occ_rate_gt64", "own_borrowed", "own_owned", "own_arc"],
+                                 "sampled_sa", "sentinel_not_dollar_sampled_sa", "bwt_run_ge_256_occ_rate_gt_256", "text_longer_than_2p24_sampled_sa", "occ_rate_gt64", "own_borrowed", "own_owned", "own_arc"],
         "rule": "one run = one FM index object (text, alphabet, Occ rate, raw/sampled SA, borrowed/owned/Arc) answering "
                 "many patterns; sentinels '$', '#' and byte 0; exhaustive: every text over {A,C,sentinel} (<=3 sentinels, n<=6/7, SA "
                 "sampling 1..8) x every pattern over {A,C} "
@@ -15,10 +15,14 @@ def plan(tier):
                 "every combination of Occ rate {1,3,65,130} x SA {raw, sampled 2, 5} x ownership, with patterns that "
                 "occur / have an absent symbol in front (proper suffix occurs) / at the end / one substitution / glued "
                 "substrings / longer than the text / the whole text; small texts for every sentinel x every SA sampling rate 2..8 "
-                "with all single-symbol patterns",
+                "with all single-symbol patterns; unary / periodic / two-block texts of 1000..3000 symbols "
+                "under Occ rates 257..1100; the unary text of 2^24+1 symbols (closed-form family) searched for A^m "
+                "and resolved through a sampled suffix array",
         "bounds": {"mc": "Sym={a,b}+sentinel (<=3), n<=6 (quick) / 7 (thorough), |p|<=5 / 6, Occ rates {1,2,3}, T=1",
                    "impl": "n<=500, |p|<=505, Occ rates up to 130, SA sampling rates {1,2,3,5}"},
         "assumptions": ["ndJsonDeserialize/TLC evaluate the TLA+ definitions faithfully",
+                        "for the 2^24+1 text only (n, k, s, m, rows, values) are logged; the suffix array n-1..0 and the "
+                        "answer UnaryBS are closed form (MC lemma UnaryLemma of SuffixIndexMC_C05)",
                         "patterns are non-empty, sentinel-free and over the index alphabet; every alphabet symbol "
                         "other than the sentinel is larger than the sentinel (documented: the sentinel is the "
                         "lexicographically smallest symbol)"],
